@@ -466,6 +466,20 @@ class Status:
         # Or set by StatusMonitor on restart??
         status = Status(filename, fileData, ast.literal_eval(fileData['stages']))
 
+        # VV: The file holds text. Give the values that the program computes with the type they had when they were
+        #     written, a run that is restarted carries on from them (e.g. StatusMonitor formats the progress as a number)
+        for key in ['stage-progress', 'total-progress', 'cost']:
+            value = status.data.get(key)
+            if isinstance(value, str):
+                try:
+                    number = float(value)
+                except ValueError:
+                    continue
+                status.data[key] = int(number) if (number.is_integer() and '.' not in value) else number
+
+        if status.data.get('current-stage') == 'None':
+            status.data['current-stage'] = None
+
         if error_description is not None:
             status.setErrorDescription(error_description.encode('utf-8').decode('unicode_escape'))
 
